@@ -45,6 +45,20 @@ class Stage:
     def sig(self, i):
         return 0
 
+    # what earlier calls returned stays what it was: every rows() hands the arrays a call returned to hold(); intact()
+    # says whether all arrays held since the last reset still have the bytes they were returned with
+    def hold(self, *arrays):
+        h = self.__dict__.setdefault("_held", [])
+        for a in arrays:
+            if isinstance(a, np.ndarray):
+                h.append((a, a.tobytes()))
+
+    def reset_held(self):
+        self.__dict__["_held"] = []
+
+    def intact(self):
+        return all(a.tobytes() == d for a, d in self.__dict__.get("_held", []))
+
 
 def _arr(vals, readonly):
     """readonly: False (plain), True (read-only), "strided" (a non-contiguous view into a larger array)"""
@@ -98,6 +112,7 @@ class DiffuseGeom(Stage):
             kept = np.where(mask)[0]
             acc = [np.asarray(x) for x in (g.beta_rad(), g.thetas(), g.pathLens(), g.valid_latS_rad(), g.valid_longS_rad())]
             la, lo = g.find_lat_long_along_traj(np.zeros(len(kept)))
+            self.hold(*acc, la, lo)
             for pos, j in enumerate(kept):
                 out[j] += _b(*[a[pos] for a in acc], np.asarray(la)[pos], np.asarray(lo)[pos])
         return out, U.tobytes() == c
@@ -124,6 +139,7 @@ class DiffuseGeomCall(DiffuseGeom):
         with np.errstate(all="ignore"):
             b, t, L = g(U)
             mask = np.asarray(g.event_mask)
+        self.hold(b, t, L)
         out = [b"dropped"] * len(idxs)
         for pos, j in enumerate(np.where(mask)[0]):
             out[j] = _b(np.asarray(b)[pos], np.asarray(t)[pos], np.asarray(L)[pos])
@@ -166,6 +182,7 @@ class TargetGeom(Stage):
         with warnings.catch_warnings():
             warnings.simplefilter("ignore")
             b, th, L, vt = g(t)
+            self.hold(b, th, L)
             hm = np.asarray(g.horizon_mask)
             nad = np.asarray(g.sourceNadRad)
             tm = g.times
@@ -200,6 +217,7 @@ class SpectrumStage(Stage):
         t = np.array([self.ev[i] for i in idxs])
         with own.RngStub(feeds=[t]).installed():
             logE, a, b = s(len(idxs))
+        self.hold(logE)
         return [_b(np.asarray(logE)[j], a, b) for j in range(len(idxs))], True
 
     def sig(self, i):
@@ -259,6 +277,7 @@ class TausStage(Stage):
 
             with own.RngStub(fn=fn).installed(), np.errstate(all="ignore"):
                 r = t(b, le)
+        self.hold(*r)
         return [_b(*[np.asarray(x)[j] for x in r]) for j in range(len(idxs))], _same([b, le, u], cp)
 
     def sig(self, i):
@@ -297,6 +316,7 @@ class AltDecStage(Stage):
         cp = [c.tobytes() for c in cols]
         with np.errstate(all="ignore"):
             a, l = e.altDec(*cols)
+        self.hold(a, l)
         return [_b(np.asarray(a)[j], np.asarray(l)[j]) for j in range(len(idxs))], _same(cols, cp)
 
     def sig(self, i):
@@ -331,6 +351,7 @@ class EASStage(Stage):
         cp = [c.tobytes() for c in cols]
         with own.null_progress(), dask.config.set(scheduler="synchronous"), np.errstate(all="ignore"):
             pe, ce = e(*cols, cloudf=self.cloud)
+        self.hold(pe, ce)
         return [_b(np.asarray(pe)[j], np.asarray(ce)[j]) for j in range(len(idxs))], _same(cols, cp)
 
     def sig(self, i):
@@ -383,6 +404,7 @@ class RadioStage(Stage):
 
         with own.RngStub(fn=fn).installed(), own.quiet(), np.errstate(all="ignore"):
             ef = np.asarray(r(beta, altDec, lenDec, theta, L, E))
+        self.hold(ef)
         from nuspacesim.simulation.eas_radio.radio_antenna import calculate_snr
 
         ef_c = ef.copy()
@@ -557,6 +579,7 @@ def judge_stage(st, tier):
     n = 0
     for kind, batches in contexts(st.k, tier):
         obj = st.make()
+        st.reset_held()
         n += 1
         for bi, idxs in enumerate(batches):
             try:
@@ -566,6 +589,9 @@ def judge_stage(st, tier):
                 break
             if not ok:
                 out.append(("inputs_unmodified", kind, batches, bi))
+            if not st.intact():
+                out.append(("results_of_earlier_calls_left_intact", kind, batches, bi))
+                st.reset_held()
             for pos, i in enumerate(idxs):
                 if r[pos] != base[i]:
                     out.append(("event_result_independent_of_context", kind, batches, (bi, pos)))
